@@ -22,7 +22,7 @@ import ast
 import re
 
 from ..core import AnalysisError, norm, short
-from .dispatch import DispatchView, strip_not, Defs, resolve_local
+from .dispatch import DispatchView, strip_not, Defs, resolve_local, run_group
 from ..astutil import argn
 from .common import (cfg_of, fkey, conds, has_cond, cond_texts, stmts_of, walk_body, call_tail, call_name, returns_of,
                      stmt_of, kwarg, names_loaded)
@@ -388,7 +388,7 @@ def run(rep):
     rep.rule('R07.d', 'shape of normalize_path: drop empty segments, one leading slash, one trailing slash iff branch')
     # each group is analysed on its own: a construct one group cannot follow does not hide the verdicts of the others
     for group in (redirect_rules, plumbing_rules, canonical_form_rules):
-        rep.guard(group)
+        run_group(rep, group)
 
 
 class _NP(object):
